@@ -91,6 +91,7 @@ func runC18(c *Ctx) {
 	r.Floor("doc-lock", nd, 2, "accesses to the document map")
 	c18Mirror(c, p)
 	c18LinesPartition(c, p)
+	c18ChangeApplied(c, p)
 	// R3 bounds
 	be := newBoundsEngine(p)
 	nb := 0
@@ -930,4 +931,79 @@ func c18Coupled(c, l ssa.Value, busy map[[2]ssa.Value]bool) bool {
 		return true
 	}
 	return false
+}
+
+// c18ChangeApplied: the mirror follows the protocol only if every didChange that could be decoded is applied. In each
+// function of pkg/lsp that calls DocumentManager.Update with a parameter decoded by json.Unmarshal, every return is
+// either behind the Update call or on the branch taken when the decoding failed. A handler that returns earlier for any
+// other reason (an "out of date" version, an unknown URI it decides to skip) loses the edit: the transport is ordered,
+// there are no reordered messages to protect against.
+func c18ChangeApplied(c *Ctx, p *core.Prog) {
+	r := c.R
+	r.Rule("change-applied", "a handler that applies a decoded didChange to the document manager does so on every path: each return lies behind the Update call or on the failure branch of the parameter decoding")
+	n := 0
+	for _, fn := range p.SrcFuncs("pkg/lsp") {
+		var upd *ssa.Call
+		var failBlocks []*ssa.BasicBlock
+		for _, b := range fn.Blocks {
+			for _, in := range b.Instrs {
+				call, ok := in.(*ssa.Call)
+				if !ok {
+					continue
+				}
+				f := call.Call.StaticCallee()
+				if f == nil {
+					continue
+				}
+				if f.Name() == "Update" && f.Signature.Recv() != nil {
+					if nt := core.NamedOf(core.Deref(f.Signature.Recv().Type())); nt != nil && nt.Obj().Name() == "DocumentManager" {
+						upd = call
+					}
+				}
+				if f.Name() == "Unmarshal" && core.FnPkg(f) != nil && core.FnPkg(f).Path() == "encoding/json" {
+					for _, ref := range core.Referrers(call) {
+						bo, ok := ref.(*ssa.BinOp)
+						if !ok || (bo.Op != token.NEQ && bo.Op != token.EQL) {
+							continue
+						}
+						for _, r2 := range core.Referrers(bo) {
+							if iff, ok := r2.(*ssa.If); ok {
+								k := 0
+								if bo.Op == token.EQL {
+									k = 1
+								}
+								failBlocks = append(failBlocks, iff.Block().Succs[k])
+							}
+						}
+					}
+				}
+			}
+		}
+		if upd == nil || len(failBlocks) == 0 {
+			continue
+		}
+		n++
+		var bad *ssa.Return
+		for _, b := range fn.Blocks {
+			ret, ok := b.Instrs[len(b.Instrs)-1].(*ssa.Return)
+			if !ok {
+				continue
+			}
+			okRet := upd.Block() == b || upd.Block().Dominates(b)
+			for _, fb := range failBlocks {
+				if fb == b || fb.Dominates(b) {
+					okRet = true
+				}
+			}
+			if !okRet {
+				bad = ret
+			}
+		}
+		if bad == nil {
+			r.OK("change-applied", core.FnName(fn), p.Pos(upd.Pos()), "every return is behind Update or on the decoding-failure branch")
+		} else {
+			r.Violate("change-applied", core.FnName(fn), p.Pos(bad.Pos()), "this return is reached with the change decoded but not applied (it is neither behind the Update call nor on the decoding-failure branch): the edit is lost, the mirrored text no longer matches the editor's, and later edits land at wrong offsets")
+		}
+	}
+	r.Floor("change-applied", n, 1, "handlers that apply a decoded change")
 }
